@@ -42,6 +42,11 @@ inductive Op
   | whileTail                -- `while i < len(cache):`
   | yieldTail                -- `yield cache[i]` (tail loop)
   | incTail                  -- `i += 1` (tail loop)
+  -- `rrulebase.__iter__`
+  | ifComplete               -- `if self._cache_complete:`
+  | retListIter              -- `return iter(self._cache)`
+  | ifCacheNone              -- `elif self._cache is None:` (`next`: `return self._iter()`, not a statement of a cached object)
+  | retIterCached            -- `return self._iter_cached()`
   deriving DecidableEq, Repr, Inhabited
 
 structure Node where
@@ -87,6 +92,12 @@ def stepNode (n : Node) (sh : Shared) (t : Tid) (it : Iter) : Option (Shared × 
               | none => crashWith it .IndexError)
   | .incFill | .incTail => some (sh, { it with i := it.i + 1, pc := n.next })
   | .whileTail => some (sh, if it.i < sh.cache.length then { it with pc := n.next } else finish sh it)
+  | .ifComplete => some (sh, { it with pc := if sh.complete then n.next else n.alt })
+  | .retListIter =>
+    let it' := { it with pending := sh.cache }
+    some (sh, if stops it.q [] then finish sh it' else { it' with pc := n.next })
+  | .ifCacheNone => some (sh, { it with pc := n.alt })      -- the machine is a CACHED object: `self._cache is None` is false
+  | .retIterCached => some (sh, if stops it.q [] then finish sh it else { it with pc := n.next })
 
 def nodeAt (p : List Node) (pc : PC) : Option Node := p.find? (fun n => n.pc == pc)
 
@@ -96,8 +107,9 @@ def stepProg (p : List Node) (sh : Shared) (t : Tid) (it : Iter) : Option (Share
   | some n => stepNode n sh t it
   | none => none
 
-/-- the program counters of `_iter_cached` (the generator body) -/
+/-- the program counters of `__iter__` and `_iter_cached` (the generator body) -/
 def bodyPC : PC → Bool
+  | .l106 | .l107 | .l108 | .l111
   | .l125 | .l126 | .l127 | .l128 | .l129 | .l130 | .l131 | .l132 | .l133 | .l134 | .l135 | .l136 | .l137 | .l138
   | .l139 | .l140 | .l141 | .l142 | .l144 | .l145 | .l146 | .l147 | .l148 | .l149 => true
   | _ => false
